@@ -76,7 +76,7 @@ def thxLine (t : THF) : String :=
 def parseStepF : List String → Option StepF
   | ["x", "cstart"] => some .cstart | ["x", "cwait"] => some .cwait | ["x", "cread"] => some .cread
   | ["x", "cyield"] => some .cyield | ["x", "ccancel"] => some .ccancel
-  | ["x", "lreset"] => some .lreset | ["x", "lappend"] => some .lappend
+  | ["x", "lcall"] => some .lcall | ["x", "lreset"] => some .lreset | ["x", "lappend"] => some .lappend
   | ["x", "lnotify"] => some .lnotify | ["x", "ldone"] => some .ldone | ["x", "lfinal"] => some .lfinal
   | ["x", "lfail"] => some .lfail
   | ["x", "app", s] => do pure (.app (← decStr s))
@@ -95,7 +95,7 @@ def parseStepM : List String → Option StepM
   | ["m", "c", i, "read"] => do pure (.cread (← decNat i))
   | ["m", "c", i, "yield"] => do pure (.cyield (← decNat i))
   | ["m", "c", i, "cancel"] => do pure (.ccancel (← decNat i))
-  | ["m", "l", "reset"] => some .lreset | ["m", "l", "append"] => some .lappend
+  | ["m", "l", "call"] => some .lcall | ["m", "l", "reset"] => some .lreset | ["m", "l", "append"] => some .lappend
   | ["m", "l", "notify"] => some .lnotify | ["m", "l", "set"] => some .lset
   | ["m", "l", "done"] => some .ldone | ["m", "l", "final"] => some .lfinal
   | ["m", "l", "fail"] => some .lfail
@@ -249,6 +249,25 @@ def stepLine (d : DrvSt) (toks : List String) : DrvSt × String :=
       | some (pre, []) =>
         let t := THF.init old pre
         ({ d with tx := t }, thxLine t)
+      | _ => (d, "bad-op")
+    | none => (d, "bad-op")
+  | "xnewc" :: eager :: rest =>
+    -- kind of inner history from the case, position of the call from the tree (generated flag)
+    match decStrs rest with
+    | some (old, rest) =>
+      match decStrs rest with
+      | some (pre, []) =>
+        let t := THF.init old pre (eager == "1") Gen.C13.callHoisted
+        ({ d with tx := t }, thxLine t)
+      | _ => (d, "bad-op")
+    | none => (d, "bad-op")
+  | "mnewc" :: eager :: rest =>
+    match decStrs rest with
+    | some (old, rest) =>
+      match decStrs rest with
+      | some (pre, []) =>
+        let t := THm.init old pre (eager == "1") Gen.C13.callHoisted
+        ({ d with tm := t }, tmLine t)
       | _ => (d, "bad-op")
     | none => (d, "bad-op")
   | ["x", "nop"] => (d, thxLine d.tx)
